@@ -41,6 +41,8 @@ CONSTANTS
   EraseKinds,          \* subset of {"tellh","askh","ctl"}: type-erased wrappers a handle may be converted to
   DeadlockDetection,   \* BOOLEAN: feature deadlock-detection
   EdgeClearedOnReply,  \* BOOLEAN: wait-for edge removed when the reply is sent (F1 fixed)
+  TokenedEdges,        \* BOOLEAN: a guard removes only the edge of ITS OWN ask (per-ask token). FALSE = deviation: the
+                       \* callee-side guard of an abandoned (timed-out / cancelled) ask removes whatever edge its asker has now
   AskerGuard,          \* BOOLEAN: the asking future removes its own wait-for edge when it completes or is dropped
                        \* (FALSE = a deviation used to let TLC find distinguishing schedules: only the callee side clears)
   KilledFromSignal,    \* BOOLEAN: killed is set because a Terminate signal was received (FALSE = deviation: derived
@@ -344,7 +346,8 @@ Finish(s, a, res, cyc) ==
                          marker |-> FALSE, hop |-> 0, term |-> FALSE, res |-> res])
       s4a == IF AskerGuard THEN ClearEdge(s3, a) ELSE s3
       \* destroying an unanswered request also releases its asker's edge (part of the F1 fix)
-      askers == {s.O[o].own : o \in {x \in dropped : s.O[x].kind \in AskKinds /\ s.O[x].rep = "open"}}
+      askers == {s.O[o].own : o \in {x \in dropped : s.O[x].kind \in AskKinds
+                                                       /\ s.O[x].rep \in (IF TokenedEdges THEN {"open"} ELSE {"open", "rxdrop"})}}
       s4 == IF EdgeClearedOnReply
               THEN [s4a EXCEPT !.wf = [x \in Actors |-> IF x \in askers THEN "" ELSE s4a.wf[x]]]
               ELSE s4a
@@ -433,7 +436,8 @@ ExitHook(s, a, dir) ==
                                 THEN LET t == SetO(s, o, [rep |-> "val", rv |-> v])
                                      IN  IF EdgeClearedOnReply
                                            THEN ClearEdge(t, s.O[o].own) ELSE t
-                                ELSE s)
+                                \* the asker has gone (rep = "rxdrop"): the request's guard belongs to an ask that is over
+                                ELSE IF ~TokenedEdges /\ EdgeClearedOnReply THEN ClearEdge(s, s.O[o].own) ELSE s)
                         ELSE s
                  evs == << HExitEv(a, "handler", m, dir, v) >>
                         \o (IF IsAsk(s, o) THEN <<>> ELSE << [e |-> "TellResult", a |-> a, m |-> m] >>)
